@@ -213,6 +213,9 @@ pub(crate) struct CellShared {
     pub backend_conns: AtomicU64,
     pub backend_reuse: AtomicU64,
     pub h2_max_concurrent_back: AtomicU64,
+    /// class 'window-shift': stream windows of the small-window backend that sozu used up
+    /// completely (each one reopened with one WINDOW_UPDATE)
+    pub shift_windows_used_up: AtomicU64,
 }
 
 impl CellShared {
@@ -227,6 +230,7 @@ impl CellShared {
             backend_conns: AtomicU64::new(0),
             backend_reuse: AtomicU64::new(0),
             h2_max_concurrent_back: AtomicU64::new(0),
+            shift_windows_used_up: AtomicU64::new(0),
         })
     }
     pub fn spec(&self, key: u64) -> Option<Arc<Xfer>> {
@@ -274,12 +278,15 @@ pub(crate) struct CellCfg {
     pub lanes: usize,
     /// backends: (protocol, listener I/O program)
     pub backends: Vec<(Back, IoProgram)>,
+    /// class 'window-shift': this h2c backend advertises a small stream window and reopens it
+    /// only once it is used up
+    pub shift_backend: Option<usize>,
 }
 
 impl CellCfg {
     fn json(&self) -> Value {
         json!({"tight": self.tight, "buffer_size": self.buffer_size, "min_buffers": self.min_buffers,
-            "max_buffers": self.max_buffers, "knobs": self.knobs, "lanes": self.lanes,
+            "max_buffers": self.max_buffers, "knobs": self.knobs, "lanes": self.lanes, "small_window_backend": self.shift_backend,
             "backends": self.backends.iter().map(|(b, p)| format!("{b:?} {}", p.describe())).collect::<Vec<_>>()})
     }
 }
@@ -421,7 +428,7 @@ fn gen_cell_cfg(rng: &mut Rng, with_h2c: bool) -> CellCfg {
         backends.push((Back::H2c, IoProgram::default()));
         backends.push((Back::H2c, slow(rng)));
     }
-    CellCfg { tight, buffer_size, min_buffers, max_buffers, knobs, lanes, backends }
+    CellCfg { tight, buffer_size, min_buffers, max_buffers, knobs, lanes, backends, shift_backend: None }
 }
 
 struct Sizes {
@@ -545,6 +552,9 @@ fn h2_available() -> bool {
 }
 
 fn gen_cell(ctx: &Ctx, case: u64) -> CellPlan {
+    if case & SHIFT_CELL != 0 {
+        return gen_shift_cell(ctx, case);
+    }
     let mut rng = Rng::for_case(ctx.seed, 1, case);
     let with_h2 = h2_available() && ctx.opt("h2") != Some("off");
     let cfg = gen_cell_cfg(&mut rng, with_h2);
@@ -703,10 +713,104 @@ fn gen_cell(ctx: &Ctx, case: u64) -> CellPlan {
         prog.read_pause_us = prog.read_pause_us.min(500);
         conns.insert(0, ConnPlan { idx: n_conns, front: Front::H2Tls, prog, xfers, seed: crng.next_u64(), theme: CANCEL_REUSE.to_owned() });
     }
+    let _ = n;
     CellPlan { case, cfg, conns }
 }
 
 pub(crate) const CANCEL_REUSE: &str = "cancel-reuse";
+pub(crate) const WINDOW_SHIFT: &str = "window-shift";
+/// case numbers with this bit are cells of the class 'window-shift' (own cells: the other cells are
+/// the same with or without the class)
+const SHIFT_CELL: u64 = 1 << 32;
+
+/// Class "window-shift", cells of their own. The receiver of a body behind an H2 hop advertises
+/// a small stream window and reopens it only once it is used up, and reads slowly through a small
+/// socket buffer, while the sender of the body delivers fast in small segments. In sozu the
+/// converter then stops in the middle of the buffered body with several blocks pending (window
+/// used up), the DATA frame on its way out is written in part only (SO_SNDBUF of 2-4 KiB), the
+/// stream buffer is shifted and refilled: every pending block must still point at its own bytes.
+/// Uploads to an h2c backend from an H2 and from an H1 client, downloads to an H2 client from an
+/// h2c and from an H1 backend. One direction per connection: with a body blocked on a window in
+/// each direction of one H2 connection, sozu's frontend and backend connections wait for each
+/// other (the head-of-line deadlock already on record) and nothing of this class would be seen.
+fn gen_shift_cell(ctx: &Ctx, case: u64) -> CellPlan {
+    let mut rng = Rng::for_case(ctx.seed, 8, case);
+    let mut cfg = gen_cell_cfg(&mut rng, true);
+    cfg.tight = true;
+    cfg.buffer_size = 16393;
+    cfg.min_buffers = 1;
+    cfg.max_buffers = 64;
+    cfg.lanes = 1;
+    cfg.knobs.retain(|(k, _)| k != "front_sndbuf" && k != "back_sndbuf");
+    for k in ["front_sndbuf", "back_sndbuf"] {
+        cfg.knobs.push((k.to_owned(), *rng.pick(&[2048i64, 4096])));
+    }
+    let backend = 2 + rng.usize_below(2); // one of the two h2c backends
+    cfg.shift_backend = Some(backend);
+    let sz = Sizes { common_max: 256 * 1024, big_max: 256 * 1024 };
+    let slow_reader = |rng: &mut Rng| IoProgram {
+        write_seg: 16384,
+        write_pause_us: 0,
+        read_chunk: *rng.pick(&[1460usize, 1460, 4096]),
+        read_pause_us: rng.range(100, 400),
+        rcvbuf: 4096,
+        sndbuf: 0,
+    };
+    let fast_small_writer = |rng: &mut Rng| IoProgram {
+        write_seg: *rng.pick(&[1460usize, 1460, 4096]),
+        write_pause_us: *rng.pick(&[0u64, 0, 50]),
+        read_chunk: 0,
+        read_pause_us: 0,
+        rcvbuf: 0,
+        sndbuf: 0,
+    };
+    let body = |rng: &mut Rng| rng.range(5 * 16_384, 12 * 16_384) + rng.range(0, 3);
+    let plain = H2Shape { frame_sizes: vec![0], padding: false, empty_frames: false, end: H2End::OnLast, content_length: true };
+    let mut conns = Vec::new();
+    let mut n = 0u64;
+    // (front, upload?, backend): the small-window h2c backend for the uploads, h2c and H1 for downloads
+    let layout = [(Front::H2Tls, true, backend), (Front::H2Tls, false, backend), (Front::H1Tcp, true, backend), (Front::H2Tls, false, rng.usize_below(2))];
+    for (idx, (front, upload, backend)) in layout.into_iter().enumerate() {
+        let streams = if front == Front::H2Tls { 2 } else { 1 };
+        let mut xfers = Vec::new();
+        for _ in 0..streams {
+            let key = (case << 24) | n;
+            n += 1;
+            let mut x = gen_xfer(&mut rng, key, &cfg, &sz, front, backend, false, false, streams);
+            x.mode = Mode::Normal;
+            x.client_close = false;
+            x.req_fill = x.req_fill.min(100);
+            x.resp_fill = x.resp_fill.min(100);
+            let seg = *rng.pick(&[1460usize, 4096, 16384]);
+            if upload {
+                x.req_size = body(&mut rng);
+                x.req_framing = match front {
+                    Front::H2Tls => ReqFraming::H2(H2Shape { frame_sizes: vec![seg], ..plain.clone() }),
+                    _ if rng.bool() => ReqFraming::Cl,
+                    _ => ReqFraming::Chunked { sizes: vec![seg], ext: false, trailers: false },
+                };
+                x.resp_size = rng.range(0, 64);
+                x.resp_framing = RespFraming::H2(plain.clone());
+                x.backend_prog = slow_reader(&mut rng);
+            } else {
+                x.req_size = 0;
+                x.req_framing = ReqFraming::NoBody;
+                x.resp_size = body(&mut rng);
+                x.resp_framing = match cfg.backends[backend].0 {
+                    Back::H2c => RespFraming::H2(H2Shape { frame_sizes: vec![seg.min(4096)], ..plain.clone() }),
+                    Back::H1 if rng.bool() => RespFraming::Cl { close: false },
+                    Back::H1 => RespFraming::Chunked { sizes: vec![seg], ext: false, trailers: false, close: false },
+                };
+                x.backend_prog = fast_small_writer(&mut rng);
+            }
+            xfers.push(x);
+        }
+        let prog = if upload { fast_small_writer(&mut rng) } else { slow_reader(&mut rng) };
+        conns.push(ConnPlan { idx, front, prog, xfers, seed: rng.next_u64(), theme: WINDOW_SHIFT.to_owned() });
+    }
+    let _ = ctx;
+    CellPlan { case, cfg, conns }
+}
 
 // ---------------------------------------------------------------------------------------------
 // running a cell
@@ -806,11 +910,12 @@ fn start_cell(plan: &CellPlan, rep: &mut Report) -> Option<(Worker, Vec<BackendS
         let sh = shared.clone();
         let proto = *proto;
         let lprog = prog.clone();
+        let small_window = plan.cfg.shift_backend == Some(i);
         let res = BackendServer::start(addr, prog.clone(), move |sock, idx| {
             sh.backend_conns.fetch_add(1, Ordering::Relaxed);
             match proto {
                 Back::H1 => h1run::backend_conn(&sh, sock, idx, &lprog),
-                Back::H2c => h2run::backend_conn(&sh, sock, idx, &lprog),
+                Back::H2c => h2run::backend_conn(&sh, sock, idx, &lprog, small_window),
             }
         });
         match res {
@@ -939,6 +1044,11 @@ fn run_cell(plan: &CellPlan, only_conn: Option<usize>, only_key: Option<u64>, re
     rep.obs("backend_connections", env.shared.backend_conns.load(Ordering::Relaxed));
     rep.obs("backend_connection_reuses", env.shared.backend_reuse.load(Ordering::Relaxed));
     rep.obs_max("h2_concurrent_streams_backend", env.shared.h2_max_concurrent_back.load(Ordering::Relaxed));
+    if plan.cfg.shift_backend.is_some() && only_conn.is_none() {
+        rep.obs("window_shift/cells", 1);
+        rep.obs("window_shift/backend_stream_windows_used_up", env.shared.shift_windows_used_up.load(Ordering::Relaxed));
+        rep.obs("window_shift/sozu_partial_socket_writes", sum_counters(&counters_delta(&before, &after), &["session_tcp"], &["write", "writev"], "partial"));
+    }
     Some((outcomes, counters_delta(&before, &after), panics))
 }
 
@@ -1482,6 +1592,7 @@ fn run_case(ctx: &Ctx, case: u64, globals: &Globals, only_conn: Option<usize>, o
     }
     if only_conn.is_none() {
         rep.obs("cancel_reuse/connections_planned", plan.conns.iter().filter(|c| c.theme == CANCEL_REUSE).count() as u64);
+        rep.obs("window_shift/connections_planned", plan.conns.iter().filter(|c| c.theme == WINDOW_SHIFT).count() as u64);
     }
     let judge = Judge { ctx, plan: &plan, globals, rerun, killed_reported: Default::default() };
     for o in &outcomes {
@@ -1513,7 +1624,7 @@ fn run_case(ctx: &Ctx, case: u64, globals: &Globals, only_conn: Option<usize>, o
 pub fn run(ctx: &Ctx) -> Report {
     let mut rep = Report::new(
         "exploration",
-        "cells = one sozu worker (tight: buffer_size 16393, small pool, shrunk socket buffers via knobs / default) + scripted H1 (and h2c) backends; per cell ~12 client connections (H1/TCP, H1/TLS, H2/TLS) with 1..8 keep-alive exchanges or 1..32 concurrent streams; plus, in half of the cells, one H2 connection of the class 'cancel mid-download then reuse' (large response with a closed stream window, RST_STREAM CANCEL after the head, then two more exchanges to the same H1 keep-alive backend on the same connection); each exchange draws direction (upload/download/both/early response), framings (Content-Length, chunked with boundary chunk sizes, extensions, trailers, close-delimited HTTP/1.0 and Connection: close, H2 DATA padded/empty/END_STREAM variants), boundary-biased sizes and an I/O program per socket; a case is one exchange, non-trivial when it was judged by the receiver-side oracles (not exempted), distinct = (pair, direction, framings, size buckets, I/O programs)",
+        "cells = one sozu worker (tight: buffer_size 16393, small pool, shrunk socket buffers via knobs / default) + scripted H1 (and h2c) backends; per cell ~12 client connections (H1/TCP, H1/TLS, H2/TLS) with 1..8 keep-alive exchanges or 1..32 concurrent streams; plus, in half of the cells, one H2 connection of the class 'cancel mid-download then reuse' (large response with a closed stream window, RST_STREAM CANCEL after the head, then two more exchanges to the same H1 keep-alive backend on the same connection); plus cells of the class 'window-shift' (8 quick / 100 thorough: an h2c backend and H2 clients with a stream window of 6-20 kB reopened only when used up, slow readers behind 2-4 KiB SO_SNDBUF of sozu, fast senders in small segments; uploads H2->h2c and H1->h2c, downloads h2c->H2 and H1->H2, one direction per connection); each exchange draws direction (upload/download/both/early response), framings (Content-Length, chunked with boundary chunk sizes, extensions, trailers, close-delimited HTTP/1.0 and Connection: close, H2 DATA padded/empty/END_STREAM variants), boundary-biased sizes and an I/O program per socket; a case is one exchange, non-trivial when it was judged by the receiver-side oracles (not exempted), distinct = (pair, direction, framings, size buckets, I/O programs)",
     );
     rep.assume("loopback TCP: the kernel never reorders or corrupts; only segmentation, pacing and buffer sizes are provoked");
     rep.assume("chunk extensions and H1 trailers need not be forwarded (docs are silent): only body bytes and clean termination are judged; what happened to trailers is counted");
@@ -1551,12 +1662,15 @@ pub fn run(ctx: &Ctx) -> Report {
     // cells take 10..40 s (deliberate pauses, watchdogs on the defects sozu has): stop starting them
     // early enough for the run to end near the budget
     let start_until = ctx.budget.mul_f64(ctx.tier.pick(0.4, 0.9));
-    par_cases(ctx, &mut rep, n, |i, r| {
+    // the cells of the class 'window-shift' first (short: four connections), then the general cells
+    let m = if h2_available() && ctx.opt("h2") != Some("off") { ctx.opt_u64("shift_cells", ctx.tier.pick(8, 100)) } else { 0 };
+    par_cases(ctx, &mut rep, m + n, |i, r| {
         if ctx.started.elapsed() > start_until {
             r.obs("cells_not_started_soft_budget", 1);
             return;
         }
-        run_case(ctx, i, &globals, None, None, false, r);
+        let case = if i < m { SHIFT_CELL | i } else { i - m };
+        run_case(ctx, case, &globals, None, None, false, r);
     });
     finish_stalls(ctx, &globals, &mut rep);
 
@@ -1593,6 +1707,11 @@ pub fn run(ctx: &Ctx) -> Report {
     if h2_available() && ctx.opt("h2") != Some("off") {
         for k in h2run::required_keys() {
             required.push(k);
+        }
+        if ctx.opt("shift_cells") != Some("0") {
+            required.push("window_shift/connections_planned".into());
+            required.push("window_shift/backend_stream_windows_used_up".into());
+            required.push("window_shift/sozu_partial_socket_writes".into());
         }
         if ctx.opt("cancel_reuse") != Some("off") {
             required.push("cancel_reuse/streams_cancelled_mid_download".into());
